@@ -224,7 +224,12 @@ def emit(plan):
             p = e.new('prop %d %s %d' % (so, pname, nvals))
             if unit is not None:
                 e.op('punit %d %s' % (p, s(unit)))
-    return e.lines + post + ['validate']
+    lines = e.lines + post
+    # every free function valid::validate(entity) on every entity: read-only before the file-level validation for a
+    # quarter of the files, otherwise after it, alternately in a read-only and a read-write session
+    if len(lines) % 4 == 0:
+        return lines + ['entities ro', 'validate']
+    return lines + ['validate', 'entities ' + ('ro' if len(lines) % 2 else 'rw')]
 
 
 # ----------------------------------------------------------------------------------------------
@@ -940,7 +945,7 @@ class C19(Prop):
                 continue
             if not b.startswith('SPEC'):
                 if a != b:
-                    out.add('script:' + b.split(' ')[0])
+                    out.add('entity-routes' if b.startswith('OK walk=') else 'script:' + b.split(' ')[0])
                 continue
             ans = parse_answer(a) or []
             for c in failing_clauses(a, b):
@@ -997,6 +1002,31 @@ class C19(Prop):
         except OSError:
             pass
         ctx['ev']['judge_crosscheck_cases'] = checked
+        # routes of the public interface the driver calls, and how many calls each got in this run
+        ROUTE = {'block': 'valid::validate(const Block&)', 'array': 'valid::validate(const DataArray&)',
+                 'tag': 'valid::validate(const Tag&)', 'mtag': 'valid::validate(const MultiTag&)',
+                 'feat': 'valid::validate(const Feature&)', 'source': 'valid::validate(const Source&)',
+                 'section': 'valid::validate(const Section&)', 'prop': 'valid::validate(const Property&)',
+                 'dset': 'valid::validate(const SetDimension&)', 'dsamp': 'valid::validate(const SampledDimension&)',
+                 'drange': 'valid::validate(const RangeDimension&)', 'dalias': 'valid::validate(const RangeDimension&)'}
+        ep = {}
+        for c in cases:
+            cmds = [l.split(' ')[0] for l in c.lines]
+            if 'entities' not in cmds:
+                continue
+            for k in cmds:
+                if k in ROUTE:
+                    ep[ROUTE[k]] = ep.get(ROUTE[k], 0) + 1
+                if k in ('dset', 'dsamp', 'drange', 'dalias', 'ddf'):
+                    ep['valid::validate(const Dimension&)'] = ep.get('valid::validate(const Dimension&)', 0) + 1
+            for r in ('valid::validate(const File&)', 'File::validate() == concat of the free functions in walk order',
+                      'File::validate() in a ReadOnly session (first observation)', 'File::validate() in a ReadWrite session',
+                      'Result::ok/hasErrors/hasWarnings/concat/addError/addWarning/none_t ctors/operator<< on every Result',
+                      'Message::id == entity id on every message'):
+                ep[r] = ep.get(r, 0) + 1
+        ctx['ev']['entry_points'] = dict(sorted(ep.items()))
+        ctx['ev']['entry_points_note'] = ('descriptor routes are counted per descriptor the script creates (a few are unlinked again by raw '
+                                          'HDF5 before the call); the library has no validate for Group, DataFrame and DataFrameDimension')
         ctx['ev']['clauses_judged_on_implementation'] = {k: v // 1 for k, v in sorted(self.clause_counts.items())}
         return fails
 
